@@ -1,6 +1,7 @@
 pub mod adversarial;
 pub mod ast;
 pub mod enumerate;
+pub mod fmtspec;
 pub mod model;
 pub mod par;
 pub mod report;
